@@ -28,6 +28,8 @@ def run(ctx, rep):
                    "projection, re-inserted by the variable conversion; and that conversion binds the call the base class makes", floor=3)
     rep.rule("Q3", "a class overriding an object-level projection also overrides its variable-level twin (the optimiser closures and the "
                    "variable-level physical projection dispatch to the twin)", floor=2)
+    rep.rule("Q4", "sparse fast paths: the coefficient vector handed to a pre-computed basis table enumerates K in the order the table's "
+                   "rows were built, so that every K[r, c] multiplies the same matrix as in the reference (`_slowly`) sum", floor=2)
     cls = ix.cls(C)
     # ---- T1
     for nm in ("is_tp", "is_cp"):
@@ -78,6 +80,7 @@ def run(ctx, rep):
     _q2(ctx, rep, cls)
     # ---- Q3
     _q3(ctx, rep)
+    _q4(ctx, rep)
 
 
 def _spectral_inline(rep, f: Func):
@@ -265,3 +268,144 @@ def _q3(ctx, rep):
                     rep.violation("Q3", c.methods[obj], con, "%s overrides %s but inherits %s from %s: the optimiser closures and the variable-level "
                                                              "physical projection compute %s's projection, not this class's" % (
                                       c.name, obj, var, inh.cls.name if inh and inh.cls else "?", inh.cls.name if inh and inh.cls else "?"), node=c.methods[obj].node)
+
+
+# ------------------------------------------------------------------------------ Q4
+FAST_SLOW = [("_calc_j_mat_from_k_mat_with_sparsity", "_calc_j_mat_from_k_mat_slowly", "basishermitian_basis_T_from_1"),
+             ("_calc_k_part_from_k_mat_with_sparsity", "_calc_k_part_from_slowly", "basis_basisconjugate_T_sparse_from_1")]
+
+
+class _Subst(ast.NodeTransformer):
+    def __init__(self, m):
+        self.m = m
+
+    def visit_Name(self, n):
+        return self.m[n.id] if n.id in self.m else n
+
+
+def _canon(e: ast.AST):
+    """kron(a, b) / matrix-product normal form, as nested tuples of (text, conj, transposed)."""
+    from ..matexpr import product
+    if isinstance(e, ast.Call) and (dotted(e.func) or "").split(".")[-1] == "kron" and len(e.args) == 2:
+        return ("kron", _canon(e.args[0]), _canon(e.args[1]))
+    return tuple(product(e))
+
+
+def _table_element(ctx, table: str):
+    """(element expr in terms of alpha/beta names, (alpha, beta), offset) for the CompositeSystem table `table`."""
+    from ..astutil import clone
+    f = ctx.ix.func("quara.objects.composite_system.CompositeSystem._calc_basis_basisconjugate_sparse")
+    lst = None
+    for n in own_nodes(f.node):
+        if isinstance(n, ast.Assign) and unparse(n.targets[0]) == "self._" + table:
+            v = n.value
+            if not (isinstance(v, ast.Attribute) and v.attr == "T" and isinstance(v.value, ast.Name)):
+                return None, "self._%s is not <stacked rows>.T" % table
+            lst = v.value.id
+    if lst is None:
+        return None, "no store to self._%s" % table
+    # the stacked name is re-bound from the list of the same name: X = sparse.vstack(X).reshape(rows, size)
+    ok_stack = any(isinstance(n, ast.Assign) and unparse(n.targets[0]) == lst and isinstance(n.value, ast.Call)
+                   and unparse(n.value).startswith("sparse.vstack(%s).reshape(" % lst) for n in own_nodes(f.node))
+    if not ok_stack:
+        return None, "%s is not sparse.vstack(%s).reshape(...)" % (lst, lst)
+    loops = [n for n in own_nodes(f.node) if isinstance(n, ast.For) and isinstance(n.iter, ast.Call)
+             and (dotted(n.iter.func) or "").endswith("product") and len(n.iter.args) == 2 and isinstance(n.target, ast.Tuple)
+             and len(n.target.elts) == 2 and all(isinstance(x, ast.Name) for x in n.target.elts)]
+    if len(loops) != 1 or unparse(loops[0].iter.args[0]) != unparse(loops[0].iter.args[1]) or not unparse(loops[0].iter.args[0]).startswith("range("):
+        return None, "table is not filled by one `for a, b in itertools.product(range(n), range(n))` loop"
+    loop = loops[0]
+    a, b = loop.target.elts[0].id, loop.target.elts[1].id
+    defs = {}
+    app = None
+    guard = None
+    for st in ast.walk(loop):
+        if isinstance(st, ast.Assign) and len(st.targets) == 1 and isinstance(st.targets[0], ast.Name):
+            defs.setdefault(st.targets[0].id, st.value)
+        if isinstance(st, ast.Call) and isinstance(st.func, ast.Attribute) and st.func.attr == "append" and unparse(st.func.value) == lst:
+            app = st
+    if app is None:
+        return None, "no %s.append(...) in the loop" % lst
+    from ..index import parents
+    for p in parents(app):
+        if p is loop:
+            break
+        if isinstance(p, ast.If):
+            guard = unparse(p.test).replace(" ", "")
+    off = 0
+    if guard is not None:
+        if guard in ("%s!=0and%s!=0" % (a, b), "%s!=0and%s!=0" % (b, a)):
+            off = 1
+        else:
+            return None, "append is guarded by `%s`" % guard
+    e = clone(app.args[0])
+    for _ in range(4):
+        e = _Subst({k: clone(v) for k, v in defs.items()}).visit(e)
+    # strip the row reshape
+    if isinstance(e, ast.Call) and isinstance(e.func, ast.Attribute) and e.func.attr == "reshape" and len(e.args) == 2 and is_num(e.args[0], 1):
+        e = e.func.value
+    else:
+        return None, "appended element is not <matrix>.reshape(1, size)"
+    return (e, (a, b), off), None
+
+
+def _q4(ctx, rep):
+    from ..astutil import clone
+    ix = ctx.ix
+    for fast_n, slow_n, table in FAST_SLOW:
+        fast, slow = ix.func(EL + fast_n), ix.func(EL + slow_n)
+        con = "%s vs %s" % (fast_n, slow_n)
+        te, why = _table_element(ctx, table)
+        if te is None:
+            rep.undecided("Q4", fast, con, "table %s: %s" % (table, why))
+            continue
+        elem, (a, b), off = te
+        # fast: <c_sys>.<table>.dot(ARG)
+        dots = [n for n in own_nodes(fast.node) if isinstance(n, ast.Call) and isinstance(n.func, ast.Attribute) and n.func.attr == "dot"
+                and isinstance(n.func.value, ast.Attribute) and n.func.value.attr == table and len(n.args) == 1]
+        if len(dots) != 1:
+            rep.undecided("Q4", fast, con, "expected one `c_sys.%s.dot(...)`" % table)
+            continue
+        argx = dots[0].args[0]
+        km = fast.params[0]
+        t = unparse(argx).replace(" ", "").replace('"', "'")
+        row_major = ("%s.flatten()" % km, "%s.ravel()" % km, "%s.reshape(-1)" % km, "%s.flatten('C')" % km, "%s.flatten(order='C')" % km)
+        col_major = ("%s.T.flatten()" % km, "%s.flatten('F')" % km, "%s.flatten(order='F')" % km, "%s.T.ravel()" % km, "%s.transpose().flatten()" % km,
+                     "%s.T.reshape(-1)" % km)
+        if t in row_major:
+            swapped = False
+        elif t in col_major:
+            swapped = True
+        else:
+            rep.undecided("Q4", fast, con, "coefficient vector `%s` is outside the recognised flattenings of %s" % (unparse(argx), km))
+            continue
+        # slow: for r in range(K.shape[0]): for c in range(K.shape[..]): term = K[r, c] * G; acc += term
+        sk = slow.params[0]
+        outer = [n for n in own_nodes(slow.node) if isinstance(n, ast.For) and isinstance(n.target, ast.Name)
+                 and unparse(n.iter).startswith("range(%s.shape[" % sk)]
+        inner = [m for n in outer for m in n.body if isinstance(m, ast.For) and isinstance(m.target, ast.Name)
+                 and unparse(m.iter).startswith("range(%s.shape[" % sk)]
+        if len(inner) != 1:
+            rep.undecided("Q4", slow, con, "reference implementation is not a double loop over the coefficient matrix")
+            continue
+        term = None
+        for n in ast.walk(inner[0]):
+            if isinstance(n, ast.BinOp) and isinstance(n.op, ast.Mult) and isinstance(n.left, ast.Subscript) and unparse(n.left.value) == sk \
+                    and isinstance(n.left.slice, ast.Tuple) and len(n.left.slice.elts) == 2 and all(isinstance(x, ast.Name) for x in n.left.slice.elts):
+                term = n
+        if term is None:
+            rep.undecided("Q4", slow, con, "reference term is not K[r, c] * <matrix expression>")
+            continue
+        r, c = term.left.slice.elts[0].id, term.left.slice.elts[1].id
+        first, second = (c, r) if swapped else (r, c)     # entry number i*(n)+j of the vector is K[first=i, second=j]
+
+        def plus(nm):
+            return ast.BinOp(left=ast.Name(id=nm, ctx=ast.Load()), op=ast.Add(), right=ast.Constant(value=off)) if off else ast.Name(id=nm, ctx=ast.Load())
+        # table row i*(n)+j holds elem(alpha=i+off, beta=j+off)
+        got = _Subst({a: plus(first), b: plus(second)}).visit(clone(elem))
+        ast.fix_missing_locations(got)
+        cg, cw = _canon(got), _canon(term.right)
+        ok = cg == cw
+        rep.check(ok, "Q4", fast, con, "row (i, j) of %s is %s = coefficient K[%s, %s] of the reference sum" % (table, unparse(got), first, second),
+                  "the sparse path multiplies K[%s, %s] by %s (table %s, coefficient vector `%s`), the reference implementation %s multiplies it "
+                  "by %s" % (first, second, unparse(got), table, unparse(argx), slow_n, unparse(term.right)), node=dots[0])
